@@ -139,7 +139,7 @@ func drawWindow(t *rapid.T, label, kind string, L int, recv Win, r, c int) (Win,
 }
 
 func drawCase(t *rapid.T) Case {
-	op := ops[rapid.IntRange(0, len(ops)-1).Draw(t, "op")]
+	op := ops[int(rapid.Uint32().Draw(t, "op"))%len(ops)] // uniform over the methods
 	maxDim := 12
 	if op.Name == "Pow" || op.Name == "Exp" || op.Name == "Kronecker" || op.Name == "Product" {
 		maxDim = 6
@@ -295,5 +295,5 @@ func drawCase(t *rapid.T) Case {
 }
 
 func TestSampled(t *testing.T) {
-	vk.Run(t, subName, vk.Opts{Quick: 40000, Thorough: 1500000}, drawCase, runCase("sampled"))
+	vk.Run(t, subName, vk.Opts{Quick: 240000, Thorough: 12000000}, drawCase, runCase("sampled"))
 }
